@@ -135,8 +135,7 @@ def key_fn(case, ob, step, clause):
     if clause == 9:
         names = {900: "instance", 904: "list-of-instances", 905: "write-once-until-inited", 906: "dict-keys",
                  907: "dict-values-no-copy-metadata"}
-        demanded = lambda cp: op[0] == "pickle" or cp == "deep" or (cp not in ("ref", "shallow") and (
-            op[0] == "deepcopy" or (op[0] == "clone" and op[1] == "deep")))
+        demanded = lambda cp: op[0] == "pickle" or cp == "deep"    # children: only the trait's own metadata
         bad = sorted(names.get(q[1], str(q[1])) + ("-shared" if q[3] and demanded(q[2]) else "-differs")
                      for q in ob["probes"] if q[0] == "inst" and ((q[3] and demanded(q[2])) or not q[4]))
         detail = "/" + "+".join(bad)
